@@ -52,15 +52,6 @@ const (
 var stratNames = [...]string{"random", "pct", "rr", "global", "stall", "seq", "replay"}
 var granNames = [...]string{"stmt", "func", "op"}
 
-// SwRec is one recorded task switch: task `T`, at its `At`-th counted yield,
-// handed the token to `To`.  Forced is set when T blocked or finished.
-type SwRec struct {
-	T      int8   `json:"t"`
-	To     int8   `json:"to"`
-	Forced bool   `json:"f,omitempty"`
-	At     uint32 `json:"at"`
-}
-
 type pendingMsg struct {
 	due uint64
 	ch  int16
@@ -72,6 +63,8 @@ var (
 	sActive    bool
 	sCounting  bool // inert hook counts sites (reference pass)
 	sCountN    uint64
+	sRefOpHash uint64           // reference pass: hash of the yield sites passed by the current operation
+	sOpHash    [maxTasks]uint64 // concurrent phase: same, per task
 	sGran      int
 	sStrat     int
 	sN         int
@@ -156,10 +149,12 @@ func yieldHook(site int) {
 	if !sActive {
 		if sCounting {
 			sCountN++
+			sRefOpHash = (sRefOpHash ^ uint64(site+1)) * 0x100000001b3
 		}
 		return
 	}
 	if site >= 0 {
+		sOpHash[sCur] = (sOpHash[sCur] ^ uint64(site+1)) * 0x100000001b3
 		if site < len(siteHit) {
 			siteHit[site]++
 		}
@@ -548,26 +543,6 @@ func schedRecv(me int, ch, idx int) bool {
 	return true
 }
 
-// SchedConfig is the per-run scheduler configuration (a pure function of the run seed).
-type SchedConfig struct {
-	Strat   int      `json:"strat"`
-	Gran    int      `json:"gran"`
-	P       uint64   `json:"p,omitempty"`
-	Q       uint32   `json:"q,omitempty"`
-	Depth   int      `json:"depth,omitempty"`
-	EstLen  uint64   `json:"est_len,omitempty"`
-	StallT  int      `json:"stall_t,omitempty"`
-	StallAt uint32   `json:"stall_at,omitempty"`
-	StallK  int32    `json:"stall_k,omitempty"`
-	GCRate  uint64   `json:"gc_rate,omitempty"`
-	StepCap uint64   `json:"step_cap,omitempty"`
-	Seed    uint64   `json:"seed"`
-	Replay  []SwRec  `json:"replay,omitempty"`
-	First   int      `json:"first"`
-	Prio    []int32  `json:"prio,omitempty"`
-	CP      []uint64 `json:"cp,omitempty"`
-}
-
 // schedReset prepares the scheduler for a run with n tasks.  Called by the
 // coordinator goroutine before the tasks are created.
 //
@@ -649,3 +624,23 @@ func schedReset(n int, c *SchedConfig) {
 	}
 	sFirst = sCur
 }
+
+//go:norace
+func opHashReset(me int, conc bool) {
+	if conc {
+		sOpHash[me] = 0
+	} else {
+		sRefOpHash = 0
+	}
+}
+
+//go:norace
+func opHashGet(me int, conc bool) uint64 {
+	if conc {
+		return sOpHash[me]
+	}
+	return sRefOpHash
+}
+
+//go:norace
+func setCounting(v bool) { sCounting = v }
